@@ -1423,21 +1423,26 @@ PROPS['C01'] = dict(
 )
 
 PROPS['C02'] = dict(
-    module='FlacModel.Props.C02',
+    module='FlacModel.Props.C02b',
     theorems=['Flac.C02.gen_crc8_is_poly07', 'Flac.C02.gen_crc16_is_poly8005', 'Flac.C02.gen_crc8_update_shape',
               'Flac.C02.gen_crc16_update_shape', 'Flac.C02.gen_crc16_one_byte', 'Flac.C02.gen_crc8_one_byte',
               'Flac.C02.crc16_all_messages', 'Flac.C02.crc8_all_messages', 'Flac.CrcEq.step0_xor', 'Flac.CrcEq.fold_xor', 'Flac.C02.residual_exact',
+              'Flac.C02.spec_accepts_serialized', 'Flac.parseFrame_serialize',
               'Flac.C02.gen_tables_eq_rfc', 'Flac.C02.gen_write_read_inverse', 'Flac.C02.rfc_layout_is_rchunks'],
     components=[EncFrame('spec')],
     rule='every generated frame of the real encoder (same space as C01) is decoded by the independent L0 decoder Spec.specDecode '
          '(RFC partition layout, every MUST of section 9, bit-serial CRC-8/CRC-16, exact integer reconstruction) which must accept it, consume exactly '
          'the frame, read the declared rate/depth/channels/frame number and reproduce the input PCM; non-trivial = encoded frame with more than a handful of samples',
-    claim='Obligations re-proved on every run against definitions regenerated from the source: both CRC tables equal the tables of the RFC polynomials '
+    claim='spec_accepts_serialized: the serialization of EVERY frame that is well-formed and meets the additional MUSTs of RFC 9639 section 9 (the executable predicates Spec.frameWf / '
+          'Spec.frameSamplesFit: reserved bit clear, depth >= 4, zero padding, 36-bit number, residual range, every reconstructed sample within its depth) is accepted by the independent RFC-level '
+          'decoder, which consumes all bytes and reconstructs the specified samples (parseFrame_serialize + the all-messages CRC theorems); residual_exact: the LPC residual encode_residuals records '
+          'is the exact difference sample - prediction (regenerated kernel), so exact reconstruction returns the sample. '
+          'Obligations re-proved on every run against definitions regenerated from the source: both CRC tables equal the tables of the RFC polynomials '
           '(all 256 entries, decide +kernel against a bit-serial LFSR), crc16_all_messages / crc8_all_messages: the table-driven checksums equal the bit-serial '
           'LFSRs of the RFC polynomials on EVERY message of every length (linearity of the LFSR step over xor, Proofs/CrcEq.lean), every header code '
           'table equals the RFC table, writer codes are read back to the same values, and the slicing the encoder keeps is the RFC partition layout '
-          '(rfc_layout_is_rchunks). Frame-level conformance of the whole output (enc_is_serialize) is decided by the independent L0 decoder on generated '
-          'inputs, not yet by a theorem over an encoder model.',
+          '(rfc_layout_is_rchunks). That each frame the real encoder emits IS such a serialization is tested per output (frameWfB, re-serialization to the same bytes, and the L0 verdict itself), '
+          'not proved: the encoder\'s search is not modelled.',
     note='L0 is my reading of RFC 9639 (no network); whole-file rules (consecutive numbering, non-final block size) are checked under C09.',
     trusted_base=COMMON_TRUST + ['Spec/Rfc.lean as the rendering of RFC 9639 section 9'],
     assumptions=['samples fit the declared depth'],
@@ -1622,7 +1627,7 @@ PROPS['C17'] = dict(
     theorems=['Flac.C17.layouts_agree', 'Flac.C17.readPartitions_length', 'Flac.C17.structLayout_sum', 'Flac.C17.readResidual_length',
               'Flac.C17.predictGo_length', 'Flac.C17.struct_expand_len',
               'Flac.C17.parse_reserializes', 'Flac.C17.struct_parse_reserializes', 'Flac.C17.parse_agrees_with_decoder',
-              'Flac.C17.decoder_accepts_implies_parser', 'Flac.readHeaderFields_sound', 'Flac.readSubframe_sound', 'Flac.readResidual_sound',
+              'Flac.C17.decoder_accepts_implies_parser', 'Flac.parseFrame_serialize', 'Flac.readHeaderFields_sound', 'Flac.readSubframe_sound', 'Flac.readResidual_sound',
               'Flac.crc8_pins', 'Flac.crc16_pins', 'Flac.C01.frame_roundtrip'],
     components=[StructCmp()],
     rule='900 (quick) / 40000 (thorough) valid frames and as many checksum-consistent malformed frames from the Lean generators, each given to stream::Frame::read_subset (+ write_subset '
